@@ -100,12 +100,16 @@ pub fn gen_send(rng: &mut Rng) -> String {
     let blk = pick_blk(rng);
     let ws = pick_ws(rng);
     let tmo = *rng.pick(&[SEC, SEC, SEC, 2 * SEC, 255 * SEC]);
-    let rep = *rng.pick(&[1u64, 1, 1, 1, 2, 3]);
+    let rep = *rng.pick(&[1u64, 1, 1, 1, 1, 1, 2, 2, 3, 4, 7, 9]);
+    // every copy after the first costs a real 1 ms sleep in the implementation: keep duplicate-mode cases small
+    let ws = if rep > 1 { ws.min(if rep > 3 { 2 } else { 4 }) } else { ws };
     let check = rng.chance(1, 4);
-    let size = pick_size(rng, blk, ws);
+    let size = if rep > 1 { pick_size(rng, blk, ws).min(blk * if rep > 3 { 3 } else { 8 }) } else { pick_size(rng, blk, ws) };
     let seed = rng.below(256);
     let nblk = size / blk + 1;
     let fault_rate = *rng.pick(&[0u64, 0, 5, 15, 40]);
+    // a peer that acknowledges every copy it receives (duplicate-packets mode on the other side too)
+    let ack_copies = if rep > 1 && rng.chance(1, 2) { rep } else { 1 };
     let mut evs: Vec<String> = vec![];
     if check {
         match rng.below(12) {
@@ -150,6 +154,16 @@ pub fn gen_send(rng: &mut Rng) -> String {
             }
         } else {
             let d = if rng.chance(1, 10) { pick_delay(rng, tmo) } else { 0 };
+            if ack_copies > 1 {
+                // one ACK per copy of every block of the window: all but the last are stale or partial
+                for b in acked + 1..=hi {
+                    for c in 0..ack_copies {
+                        if !(b == hi && c == ack_copies - 1) {
+                            evs.push(ev_d(0, &ack(b)));
+                        }
+                    }
+                }
+            }
             evs.push(ev_d(d, &ack(hi)));
             acked = hi;
         }
@@ -188,7 +202,13 @@ pub fn gen_send_long(rng: &mut Rng, nblocks: u64) -> String {
             }
         } else {
             evs.push(ev_d(0, &ack(hi)));
+            let crossed = acked < 65536 && hi >= 65536 || acked < 131072 && hi >= 131072;
             acked = hi;
+            if crossed {
+                evs.push(ev_d(0, &ack(hi)));                 // duplicate of the ACK that crossed the wrap
+                evs.push(ev_d(0, &ack(hi + 65536 - 1)));     // stale: one behind the window front
+                evs.push(ev_d(0, &ack(65535)));
+            }
         }
     }
     format!("send {blk} {ws} {tmo} 1 0 P{size}:{seed} - {}", join(&evs))
@@ -199,7 +219,9 @@ pub fn gen_recv(rng: &mut Rng) -> String {
     let blk = pick_blk(rng);
     let ws = pick_ws(rng);
     let tmo = SEC;
-    let rep = *rng.pick(&[1u64, 1, 1, 1, 2, 3]);
+    let rep = *rng.pick(&[1u64, 1, 1, 1, 1, 1, 2, 2, 3, 4, 7]);
+    let ws = if rep > 1 { ws.min(4) } else { ws };
+    let dup_sender = if rng.chance(1, 4) { rng.range(2, 4) } else { 1 }; // the sender repeats every DATA
     let clean = !rng.chance(1, 4);
     let size = pick_size(rng, blk, ws);
     let seed = rng.below(256);
@@ -271,7 +293,9 @@ pub fn gen_recv(rng: &mut Rng) -> String {
                 }
             }
         } else {
-            evs.push(ev_d(0, &data(k, chunk(k))));
+            for _ in 0..dup_sender {
+                evs.push(ev_d(0, &data(k, chunk(k))));
+            }
             k += 1;
         }
     }
@@ -313,6 +337,13 @@ pub fn gen_recv_long(rng: &mut Rng, nblocks: u64) -> String {
             }
         }
         evs.push(ev_d(0, &data(k, chunk(k))));
+        // the sender did not get the ACK of the window that ends here: it sends that window again
+        if (k == 65535 || k == 65536 || k == 65537 || k == 131072) && k % ws == 0 && k < nblk {
+            let lo = k + 1 - ws.min(k);
+            for j in lo..=k {
+                evs.push(ev_d(0, &data(j, chunk(j))));
+            }
+        }
         k += 1;
     }
     format!("recv {blk} {ws} {} 1 1 - {}", SEC, join(&evs))
@@ -352,6 +383,7 @@ pub fn generate(suite: &str, seed: u64, count: u64, tier: &str) -> Vec<String> {
                 out.push(gen_recv_long(&mut rng, n));
             }
         }
+        "win" => out = crate::winsuite::gen_win(&mut rng, count, tier),
         "codec-dec" => out = crate::gen_codec::gen_dec(&mut rng, count, tier),
         "codec-enc" => out = crate::gen_codec::gen_enc(&mut rng, count, tier),
         other => panic!("unknown suite {other}"),
